@@ -18,6 +18,25 @@ Definition opt_value_eqb (a b : maybe value) : bool :=
   | _, _ => false
   end.
 
+(* operator== of the IEEE 754 values FloatView::Read() returns, on the bit patterns the model carries
+   (binary32 for kbits = 32, binary64 otherwise): a NaN equals nothing, +0 equals -0, otherwise the
+   patterns must be the same *)
+Definition float_is_nan (kbits raw : Z) : bool :=
+  let fbits := if kbits =? 32 then 23 else 52 in
+  let ebits := if kbits =? 32 then 8 else 11 in
+  ((raw / 2 ^ fbits) mod 2 ^ ebits =? 2 ^ ebits - 1) && negb (raw mod 2 ^ fbits =? 0).
+Definition float_is_zero (kbits raw : Z) : bool := raw mod 2 ^ (kbits - 1) =? 0.
+Definition float_eqb (kbits a b : Z) : bool :=
+  negb (float_is_nan kbits a) && negb (float_is_nan kbits b)
+  && ((a =? b) || (float_is_zero kbits a && float_is_zero kbits b)).
+
+(* <Scalar>View::Equals: Read() == other.Read() *)
+Definition scalar_equal (k : skind) (kbits : Z) (a b : maybe value) : bool :=
+  match k, a, b with
+  | KFloat, Some (VInt x), Some (VInt y) => float_eqb kbits x y
+  | _, _, _ => opt_value_eqb a b
+  end.
+
 Fixpoint forallb2 {A} (f : A -> A -> bool) (l1 l2 : list A) : bool :=
   match l1, l2 with
   | [], [] => true
@@ -33,7 +52,7 @@ Section Eq.
     | O => false
     | S f =>
         match ty with
-        | FScalar _ _ _ => opt_value_eqb (fr_val r1) (fr_val r2)           (* Read() == other.Read() *)
+        | FScalar k kbits _ => scalar_equal k kbits (fr_val r1) (fr_val r2)   (* Read() == other.Read() *)
         | FStruct tid _ _ =>
             match nth_error m tid with
             | Some d => equals_struct f d (fr_sub r1) (fr_sub r2)
@@ -89,6 +108,21 @@ Proof. destruct a, b; cbn; try reflexivity; try apply Z.eqb_sym. destruct b0, b;
 Lemma opt_value_eqb_sym a b : opt_value_eqb a b = opt_value_eqb b a.
 Proof. destruct a, b; cbn; try reflexivity. apply value_eqb_sym. Qed.
 
+Lemma float_eqb_sym kb a b : float_eqb kb a b = float_eqb kb b a.
+Proof.
+  unfold float_eqb. rewrite (Z.eqb_sym a b).
+  destruct (float_is_nan kb a), (float_is_nan kb b), (b =? a), (float_is_zero kb a), (float_is_zero kb b); reflexivity.
+Qed.
+
+Lemma scalar_equal_sym k kb a b : scalar_equal k kb a b = scalar_equal k kb b a.
+Proof.
+  unfold scalar_equal. destruct k; try apply opt_value_eqb_sym.
+  destruct a as [[x|x|x]|], b as [[y|y|y]|]; try apply opt_value_eqb_sym. apply float_eqb_sym.
+Qed.
+
+Lemma scalar_equal_not_float k kb a b : k <> KFloat -> scalar_equal k kb a b = opt_value_eqb a b.
+Proof. intros H. destruct k; try reflexivity. contradiction. Qed.
+
 Lemma member_test_sym h1 h2 e1 e2 : e1 = e2 -> member_test h1 h2 e1 = member_test h2 h1 e2.
 Proof. intros ->. destruct h1 as [[|]|], h2 as [[|]|]; reflexivity. Qed.
 
@@ -108,7 +142,7 @@ Theorem equals_sym m : forall fuel,
 Proof.
   induction fuel as [|f [IHt IHs]]; [split; reflexivity|]. split.
   - intros ty r1 r2. cbn [equals_type]. destruct ty as [k kb bo|tid args ad|elem es].
-    + apply opt_value_eqb_sym.
+    + apply scalar_equal_sym.
     + destruct (nth_error m tid); [apply IHs|reflexivity].
     + rewrite opt_value_eqb_sym. f_equal. apply forallb2_sym. intros x y _. apply IHt.
   - intros d e1 e2. cbn [equals_struct]. apply forallb_ext'. intros i.
